@@ -23,6 +23,7 @@ import (
 	"github.com/megaease/easegress/pkg/option"
 	"github.com/megaease/easegress/pkg/supervisor"
 	"github.com/megaease/easegress/pkg/zzverif/mc"
+	"github.com/megaease/easegress/pkg/zzverif/vrand"
 )
 
 type c04Registry struct {
@@ -70,7 +71,7 @@ func (r *c04Registry) set(instances map[string]*serviceregistry.ServiceInstanceS
 	r.notify <- serviceregistry.NewRegistryEventFromDiff(r.Name(), old, instances)
 }
 
-// registry contents: id -> tags ("svc" instances; "x*" belongs to another service)
+// registry contents: id -> tags [+ weight] ("svc" instances; "x*" belongs to another service)
 var c04Contents = []map[string][]string{
 	{},
 	{"a": {"v2"}},
@@ -79,6 +80,19 @@ var c04Contents = []map[string][]string{
 	{"a": {"v2"}, "c": {"other"}},
 	{"b": {"v2", "other"}},
 	{"xa": {"v2"}},
+	{"a": {"v2", "w=3"}, "b": {"v2", "w=0"}},
+	{"a": {"v2", "w=0"}, "b": {"v2", "w=3"}},
+}
+
+func c04Weight(tags []string) int {
+	for _, t := range tags {
+		if strings.HasPrefix(t, "w=") {
+			n := 0
+			fmt.Sscan(t[2:], &n)
+			return n
+		}
+	}
+	return 0
 }
 
 func c04Instances(content map[string][]string) map[string]*serviceregistry.ServiceInstanceSpec {
@@ -88,13 +102,29 @@ func c04Instances(content map[string][]string) map[string]*serviceregistry.Servi
 		if strings.HasPrefix(id, "x") {
 			svc = "othersvc"
 		}
-		s := &serviceregistry.ServiceInstanceSpec{RegistryName: "reg", ServiceName: svc, InstanceID: id, Address: id + ".disc", Port: 80, Tags: tags}
+		s := &serviceregistry.ServiceInstanceSpec{RegistryName: "reg", ServiceName: svc, InstanceID: id, Address: id + ".disc", Port: 80, Tags: tags, Weight: c04Weight(tags)}
 		m[s.Key()] = s
 	}
 	return m
 }
 
-func c04Expected(content map[string][]string, tag string) string {
+// c04Expected: the servers the pool may hand out; positiveOnly: only those with a positive weight when there is one
+func c04Expected(content map[string][]string, tag string, positiveOnly bool) string {
+	if positiveOnly {
+		pos := map[string][]string{}
+		for id, tags := range content {
+			if c04Weight(tags) > 0 && !strings.HasPrefix(id, "x") {
+				for _, t := range tags {
+					if t == tag {
+						pos[id] = tags
+					}
+				}
+			}
+		}
+		if len(pos) > 0 {
+			content = pos
+		}
+	}
 	var urls []string
 	for id, tags := range content {
 		if strings.HasPrefix(id, "x") {
@@ -159,7 +189,8 @@ func TestVerifC04disc(t *testing.T) {
 			}
 			synctest.Wait()
 			tag := []string{"v2", ""}[c.Choose(2, "serverTags")]
-			spec := &ServerPoolSpec{ServiceRegistry: "reg", ServiceName: "svc", Servers: []*Server{{URL: "http://static:9000"}}, LoadBalance: &LoadBalanceSpec{Policy: LoadBalancePolicyRoundRobin}}
+			policy := []string{LoadBalancePolicyRoundRobin, LoadBalancePolicyWeightedRandom}[c.Choose(2, "policy")]
+			spec := &ServerPoolSpec{ServiceRegistry: "reg", ServiceName: "svc", Servers: []*Server{{URL: "http://static:9000"}}, LoadBalance: &LoadBalanceSpec{Policy: policy}}
 			if tag != "" {
 				spec.ServerTags = []string{tag}
 			}
@@ -171,7 +202,24 @@ func TestVerifC04disc(t *testing.T) {
 			hist := []int{cur}
 			check := func() {
 				synctest.Wait()
-				got, want := c04Current(sp), c04Expected(c04Contents[cur], tag)
+				if policy == LoadBalancePolicyWeightedRandom {
+					// one selection, EVERY answer of the random draw explored (math/rand of loadbalance.go is the
+					// explorer's): the pick must be a qualifying instance of the latest content, and one with a
+					// positive weight when there is one
+					vrand.Set(c)
+					svr := sp.LoadBalancer().ChooseServer(nil)
+					vrand.Set(nil)
+					want := c04Expected(c04Contents[cur], tag, true)
+					if svr == nil || !strings.Contains(","+want+",", ","+svr.URL+",") {
+						u := "<none>"
+						if svr != nil {
+							u = svr.URL
+						}
+						c.Failf("discovery:weighted-pick-outside-latest-report", "serverTags [%s], registry content history %v (latest %v): weightedRandom picked %s, allowed {%s}", tag, hist, c04Contents[cur], u, want)
+					}
+					return
+				}
+				got, want := c04Current(sp), c04Expected(c04Contents[cur], tag, false)
 				if got != want {
 					kind := "stale-or-wrong-instances"
 					if want == "http://static:9000" {
@@ -193,7 +241,7 @@ func TestVerifC04disc(t *testing.T) {
 				reg.set(c04Instances(c04Contents[cur]))
 				check()
 			}
-			c.Outcome(fmt.Sprintf("tag=%s,final=%s", tag, c04Expected(c04Contents[cur], tag)))
+			c.Outcome(fmt.Sprintf("%s,tag=%s,final=%s", policy, tag, c04Expected(c04Contents[cur], tag, false)))
 		}
 		mc.RunJobsAll("C04", []mc.Job{{Name: "discovery-histories",
 			Run: func(r *mc.Result, env *mc.Env) {
